@@ -37,8 +37,10 @@ def mem_world():
             'A': {'params': [P('pa', default=0)], 'inputs': [], 'data': 'json'},
             'B': {'params': [], 'inputs': [bc('A')], 'data': 'inmemory'},
             'C': {'params': [], 'inputs': [bc('B')], 'data': 'json'},
+            'E': {'params': [], 'inputs': [bc('A')], 'data': 'inmemory_empty'},
+            'F': {'params': [], 'inputs': [bc('E'), bc('B')], 'data': 'inmemory'},
         },
-        'configs': {'root': {'medium': 'json', 'tasks': ['A', 'B', 'C'], 'values': {}}},
+        'configs': {'root': {'medium': 'json', 'tasks': ['A', 'B', 'C', 'E', 'F'], 'values': {}}},
         'root': 'root',
         'variants': {'v0': [], 'v1': [[['configs', 'root', 'values', 'pa'], 1]]},
     }
@@ -109,12 +111,14 @@ def judge(desc, spec):
                 out.append(Violation(f'{desc["name"]}: {op[0]} executed run()', f'history {hist}: {op} ran {obs["runs"]}', case))
             if op[0] == 'new' and obs.get('error'):
                 out.append(Violation(f'{desc["name"]}: construction failed', f'history {hist}: {obs["error"]}', case))
-            if op[0] == 'inspect' and obs['has_data'] != exp['has_data']:
+            if op[0] == 'inspect' and obs.get('error'):
+                out.append(Violation(f'{desc["name"]}: inspection raised', f'history {hist}: {obs["error"]}', case))
+            elif op[0] == 'inspect' and obs['has_data'] != exp['has_data']:
                 diff = {k: (obs['has_data'][k], exp['has_data'][k]) for k in obs['has_data'] if obs['has_data'][k] != exp['has_data'][k]}
                 out.append(Violation(f'{desc["name"]}: has_data disagrees with the store', f'history {hist}: (impl, model) {diff}', case))
         # global: a persisted storage location never runs twice
         if i == len(hist) - 1 or True:
-            c = Counter((r[2], r[1]) for r in ex.world.rt.log if r[1] is not None and desc['tasks'][r[2]].get('data', 'json') != 'inmemory')
+            c = Counter((r[2], r[1]) for r in ex.world.rt.log if r[1] is not None and desc['tasks'][r[2]].get('data', 'json') not in ('inmemory', 'inmemory_empty'))
             twice = {k: n for k, n in c.items() if n > 1}
             if twice and op[0] == 'value' and not out:
                 out.append(Violation(f'{desc["name"]}: storage location computed twice', f'history {hist}: {twice}', case))
@@ -143,6 +147,10 @@ def plan(tier):
     desc['name'] = 'chain3'
     sp = specs.build(desc, variants=['v0'], ops=('new', 'value', 'inspect', 'restart'), slots=2, tasks=['a', 'b'])
     out.append((desc, sp, 2, 5 if tier == 'quick' else 7))
+    # name mode (results stored under config names): inspection calls, incl. readable links, must not touch results
+    desc = families.namemode()
+    sp = specs.build(desc, ops=('new', 'value', 'inspect', 'restart'), slots=2, tasks=['a', 'c'], parameter_mode=False)
+    out.append((desc, sp, 3, 4 if tier == 'quick' else 6))
     return out
 
 
@@ -192,5 +200,5 @@ def replay(case):
         return [V(v['signature'], v['what'], v['case']) for v in vs]
     desc = get_desc(case['world'])
     sp = specs.build(desc, ops=('new',))
-    vs, c, ov = histories.run_history(desc, case['hist'], judge(desc, sp))
+    vs, c, ov = histories.run_history(desc, case['hist'], judge(desc, sp), parameter_mode=desc['name'] != 'namemode')
     return vs
